@@ -30,6 +30,8 @@ import (
 	"rscheck/rules/c18"
 	"rscheck/rules/c19"
 	"rscheck/rules/c20"
+	"rscheck/rules/gen"
+	"rscheck/rules/reent"
 	"rscheck/rules/xtra"
 )
 
@@ -52,8 +54,64 @@ func notKey(sub string, keep func(*core.Obligation) bool) func(*core.Obligation)
 	return func(o *core.Obligation) bool { return keep(o) && !strings.Contains(o.FullKey(), sub) }
 }
 
+// genScope lists, per property, the packages its mechanism lives in: the class-level rules of package gen
+// (added after the fifth seeded sample) are run over them.
+var genScope = map[string][]string{
+	"C01": {"pkg/rdb", "pkg/rdb/digest"},
+	"C02": {"pkg/rdb", "redis-shake/common", "redis-shake"},
+	"C03": {"pkg/redis", "redis-shake/dbSync", "redis-shake/filter"},
+	"C04": {"pkg/redis", "redis-shake/dbSync", "redis-shake/checkpoint"},
+	"C05": {"redis-shake/common", "redis-shake/dbSync", "redis-shake"},
+	"C06": {"redis-shake/filter", "redis-shake/dbSync", "redis-shake"},
+	"C07": {"pkg/rdb", "redis-shake", "redis-shake/dbSync", "redis-shake/common"},
+	"C08": {"pkg/redis", "redis-shake/dbSync", "redis-shake/common"},
+	"C09": {"pkg/libs/io/pipe"},
+	"C10": {"pkg/redis"},
+	"C11": {"pkg/rdb", "pkg/rdb/digest", "pkg/libs/cupcake/rdb", "redis-shake/common"},
+	"C12": {"pkg/rdb", "pkg/libs/cupcake/rdb"},
+	"C13": {"pkg/redis", "redis-shake/filter", "redis-shake/dbSync"},
+	"C14": {"redis-shake/checkpoint", "redis-shake/dbSync"},
+	"C15": {"redis-shake/common", "redis-shake/dbSync/latencymonitor", "redis-shake/dbSync"},
+	"C16": {"redis-shake", "redis-shake/scanner", "redis-shake/common", "pkg/rdb"},
+	"C17": {"redis-shake", "pkg/rdb", "pkg/libs/cupcake/rdb"},
+	"C18": {"pkg/libs/io/backlog"},
+	"C19": {"redis-shake/configure", "redis-shake/common"},
+	"C20": {"redis-shake/dbSync", "redis-shake/dbSync/slotsupervisor", "redis-shake/common"},
+}
+
+// usesTrace: properties whose error reporting (malformed input, closed pipe, invalid offset) goes through errors.Trace.
+var usesTrace = map[string]bool{"C01": true, "C09": true, "C10": true, "C11": true, "C12": true, "C18": true}
+
+func withGen(d driver.PropDef) driver.PropDef {
+	inner := d.Run
+	scope := genScope[d.ID]
+	d.Run = func(c *core.Ctx) {
+		inner(c)
+		gen.LostUpdate(c, "G1.by-value", scope...)
+		gen.ScratchAlias(c, "G2.scratch-alias", scope...)
+		gen.LoopCounterClobber(c, "G3.loop-counter", scope...)
+		if usesTrace[d.ID] {
+			gen.TracePreservesError(c, "G4.trace")
+		}
+	}
+	d.Explanation += " CLASS-LEVEL RULES over the packages of the mechanism (" + strings.Join(scope, ", ") + "): G1 no method with a by-value receiver updates state of its receiver copy that is then dropped (a lost cursor, offset, topology); G2 no reader hands out a slice that shares storage with the scratch buffer it fills again on its next read; G3 no nested loop re-initialises the counter of a loop around it"
+	if usesTrace[d.ID] {
+		d.Explanation += "; G4 errors.Trace returns an error whenever it is given one"
+	}
+	d.Explanation += "."
+	return d
+}
+
 // Defs returns the final rule sets.
 func Defs() []driver.PropDef {
+	ds := defs()
+	for i := range ds {
+		ds[i] = withGen(ds[i])
+	}
+	return ds
+}
+
+func defs() []driver.PropDef {
 	return []driver.PropDef{
 		wrap(c01.Def, "X1 the end-of-file check returns success only after the two CRC values were found equal; X2 LZF back references (compressed key names, scripts) are copied in ascending byte order, never by an overlapping block copy; X3 integer-encoded strings are the sign-extended little-endian value of all bytes of one read.", func(c *core.Ctx) {
 			xtra.FooterRejectsEveryMismatch(c, "X1.footer")
@@ -71,6 +129,7 @@ func Defs() []driver.PropDef {
 			xtra.VerdictFresh(c, "X3.verdict")
 			xtra.Import(c, "C10", c10.Run, xtra.HasPrefix("R8.alias/", "R1.account/"))
 			xtra.Import(c, "C06", c06.Run, xtra.HasPrefix("R2.matcher/"))
+			parserReentrant(c, "X4.reentrant")
 		}),
 		wrap(c04.Def, "X1 the MULTI/EXEC+checkpoint envelope is skipped only for a batch that is a lone PING; X2 all checkpoint HSETs go to ds.checkpointName, the hash the loader reads; C14's field-name agreement rules (reader/writer) and C10's byte-accounting rule of the decoder (the stored offset is the decoder's) are re-run here.", func(c *core.Ctx) {
 			xtra.EnvelopeOnlyOmittedForLonePing(c, "X1.envelope")
@@ -92,6 +151,7 @@ func Defs() []driver.PropDef {
 			xtra.FormatFloatFullPrecision(c, "X4.score", "redis-shake/common")
 			intsetRestore(c, "X5.ints")
 			xtra.Import(c, "C02", c02.Run, notKey("element/consults-policy", xtra.HasPrefix("R1.route/", "R2.ttl/", "R3.policy/", "R5.batch/flushAndCheckReply", "R6.errors/")))
+			xtra.Import(c, "C06", c06.Run, xtra.HasPrefix("R2.matcher/"))
 		}),
 		wrap(c08.Def, "X1 the ACK goroutine ends when its ACK cannot be sent; C04's stored-offset and PSYNC-continue rules and C10's byte-accounting rule of the decoder are re-run here.", func(c *core.Ctx) {
 			xtra.AckGoroutineStopsOnError(c, "X1.ack-stops")
@@ -99,7 +159,9 @@ func Defs() []driver.PropDef {
 			xtra.Import(c, "C10", c10.Run, xtra.HasPrefix("R1.account/"))
 		}),
 		c09.Def,
-		c10.Def,
+		wrap(c10.Def, "X1 the codec is re-entrant: one encoder/decoder per source node and per worker runs concurrently, so no function reachable from Encode*/Decode*/MustDecode* mutates a package-level variable of pkg/redis (the integer table is built once, in init).", func(c *core.Ctx) {
+			codecReentrant(c, "X1.reentrant")
+		}),
 		wrap(c11.Def, "X1 the end-of-file check returns success only after the two CRC values were found equal; C01's rule that a fixed-width read fills exactly the bytes it decodes (the stored checksum is read by readUint64) is re-run here.", func(c *core.Ctx) {
 			xtra.FooterRejectsEveryMismatch(c, "X1.footer")
 			xtra.Import(c, "C01", c01.Run, xtra.HasPrefix("R8.width/"))
@@ -157,4 +219,40 @@ func intStringsDecoder(c *core.Ctx, rule string) {
 
 func intsetRestore(c *core.Ctx, rule string) {
 	arith.SignedIntsOfReads(c, rule, c.Func("redis-shake/common", "", "restoreBigRdbEntry"), nil, "intset-members", 1)
+}
+
+// parserReentrant: one command parser and one sender run per source node; what they call in the filter, the
+// RESP codec and dbSync must not mutate package-level state.
+func parserReentrant(c *core.Ctx, rule string) {
+	var roots []*core.Fn
+	for _, n := range []string{"parseSourceCommand", "sendTargetCommand"} {
+		if f := c.FuncOpt(dbSync, "DbSyncer", n); f != nil {
+			roots = append(roots, f)
+		}
+	}
+	if len(roots) == 0 {
+		c.Undecidedf(rule, "roots", 0, "parseSourceCommand / sendTargetCommand not found")
+		return
+	}
+	reent.Check(c, rule, roots, []string{"redis-shake/filter", "pkg/redis"}, "one command parser / sender per source node")
+}
+
+// codecReentrant: every exported function of pkg/redis is an entry point that several goroutines use at once.
+func codecReentrant(c *core.Ctx, rule string) {
+	pk := c.Pkg("pkg/redis")
+	if pk == nil {
+		c.Undecidedf(rule, "roots", 0, "pkg/redis not loaded")
+		return
+	}
+	var roots []*core.Fn
+	for _, f := range c.FuncsOf(pk) {
+		if f.Obj != nil && f.Obj.Exported() && f.Decl != nil && f.Decl.Name.Name != "init" {
+			roots = append(roots, f)
+		}
+	}
+	if len(roots) < 5 {
+		c.Undecidedf(rule, "roots", 0, "only %d exported functions found in pkg/redis", len(roots))
+		return
+	}
+	reent.Check(c, rule, roots, []string{"pkg/redis"}, "one codec per source node, worker and connection")
 }
